@@ -8,6 +8,7 @@ import (
 	"github.com/gmrtd/gmrtd/document"
 	"github.com/gmrtd/gmrtd/verifier"
 
+	"verifharness/chipsim"
 	"verifharness/ecref"
 	"verifharness/fw"
 	"verifharness/perso"
@@ -35,6 +36,7 @@ type c14Session struct {
 	p     *perso.Perso
 	docEx *document.DocumentEx
 	blob  []byte
+	card  *chipsim.Card
 }
 
 func c14Live(k *fw.K, p *perso.Perso, pp persoPlan, seed uint64, label string) *c14Session {
@@ -51,7 +53,7 @@ func c14Live(k *fw.K, p *perso.Perso, pp persoPlan, seed uint64, label string) *
 		k.Violation("offline:export-failed", fmt.Sprintf("DocumentEx.ToCbor failed on a live result: %v", err), map[string]any{"plan": pp.String()})
 		return nil
 	}
-	return &c14Session{p: p, docEx: res.docEx, blob: blob}
+	return &c14Session{p: p, docEx: res.docEx, blob: blob, card: card}
 }
 
 // rebuild a DocumentEx from a blob so that it can be mutated independently
@@ -386,7 +388,31 @@ func c14Case(c *fw.Ctx, k *fw.K, i int) {
 	if s2 != nil {
 		otherEx = c14Clone(s2.blob)
 	}
-	for _, mu := range c14Mutations(nil, otherEx, curveOf, k) {
+	muts := c14Mutations(nil, otherEx, curveOf, k)
+	if ca := s1.card.CA; ca != nil && ca.KSEnc != nil && mechOK(live, "CA") {
+		// the chip (which holds the session keys) can MAC any response at the recorded counter:
+		// a different, validly protected response is still a changed evidence value
+		for _, sw := range []uint16{0x6A82, 0x6283, 0x6982} {
+			sw := sw
+			muts = append(muts, c14Mut{"CA", "SmRapdu", fmt.Sprintf("remac-status-%04x", sw), func(d *document.DocumentEx) bool {
+				e := d.Session.ChipAuthResult.Evidence
+				if len(e.SmSsc) == 0 {
+					return false
+				}
+				sm := chipsim.NewSM(ca.Suite, ca.KSEnc, ca.KSMac, nil)
+				// Wrap increments before use: position the counter one below the recorded value
+				v := new(big.Int).SetBytes(e.SmSsc)
+				v.Sub(v, big.NewInt(1))
+				if v.Sign() < 0 || len(e.SmSsc) != len(sm.SSC) {
+					return false
+				}
+				v.FillBytes(sm.SSC)
+				e.SmRapdu = sm.Wrap(nil, sw)
+				return true
+			}})
+		}
+	}
+	for _, mu := range muts {
 		if !mechOK(live, mu.mech) {
 			continue
 		}
